@@ -765,6 +765,7 @@ func (fc *FnCtx) havocLoop(st *State, ls *LoopSpec, nodes ...ast.Node) *State {
 		nv := fc.fresh(v.Name(), fc.sortOf(old.Ty))
 		h.vars[v] = Val{T: nv, Ty: old.Ty}
 		fc.assume(h, fc.rangeFact(nv, old.Ty))
+		fc.assume(h, fc.wellFormed(nv, old.Ty)) // a slice-typed local still holds a real slice header
 	}
 	for _, mt := range fc.modTargets(st, nodes...) {
 		fc.havocTarget(h, mt)
